@@ -28,4 +28,16 @@ PROPS = {
         "level": "exploration",
         "stages": both("inproc") + [miri("miri-inproc", scale=0.004)],
     },
+    "C02": {
+        "level": "exploration",
+        "stages": both("inproc") + [native("child")] + [miri("miri-inproc", scale=0.001)],
+    },
+    "C11": {
+        "level": "exploration",
+        "stages": both("model") + [miri("miri-model", scale=0.004)],
+    },
+    "C13": {
+        "level": "exploration",
+        "stages": both("model") + [miri("miri-model", scale=0.004)],
+    },
 }
